@@ -8,8 +8,9 @@ CONSTANTS
  CleanSet = {}
  UseCache = TRUE
  ForeignCached = {1}
+ PublishEarly = FALSE
  CacheKeyIgnoresPrefix = FALSE
  WithReader = TRUE
-INVARIANTS SuccessImpliesAllReachableStored NoWriteInFlightAtReturn ErrorsSurface FailureLeavesTreeUsable NoSkipAcrossStores GateRespected PublishedObjectsAreFrozen NoInPlaceEditOfPublished
+INVARIANTS CacheImpliesStored SuccessImpliesAllReachableStored NoWriteInFlightAtReturn ErrorsSurface FailureLeavesTreeUsable NoSkipAcrossStores GateRespected PublishedObjectsAreFrozen NoInPlaceEditOfPublished
 CHECK_DEADLOCK FALSE
 PROPERTIES Termination
